@@ -71,9 +71,8 @@ func NewReadWriteMultipleRegistersRequestTCP(
 	if writeByteCount%2 != 0 {
 		return nil, errors.New("write data length must be even number of bytes")
 	}
-	writeRegisterCount := uint16(writeByteCount / 2)
-	if writeRegisterCount == 0 || writeRegisterCount > 124 {
-		return nil, fmt.Errorf("write registers count out of range (1-124): %v", writeRegisterCount)
+	if writeByteCount == 0 || writeByteCount > 124*2 { // checked before conversion, count does not need to fit to uint16
+		return nil, fmt.Errorf("write registers count out of range (1-124): %v", writeByteCount/2)
 	}
 
 	return &ReadWriteMultipleRegistersRequestTCP{
@@ -188,9 +187,8 @@ func NewReadWriteMultipleRegistersRequestRTU(
 	if writeByteCount%2 != 0 {
 		return nil, errors.New("write data length must be even number of bytes")
 	}
-	registerCount := uint16(writeByteCount / 2)
-	if registerCount == 0 || registerCount > 124 {
-		return nil, fmt.Errorf("write registers count out of range (1-124): %v", registerCount)
+	if writeByteCount == 0 || writeByteCount > 124*2 { // checked before conversion, count does not need to fit to uint16
+		return nil, fmt.Errorf("write registers count out of range (1-124): %v", writeByteCount/2)
 	}
 
 	return &ReadWriteMultipleRegistersRequestRTU{
